@@ -819,7 +819,11 @@ impl<T: Float> Unpaired<T> {
                 / (sa2_na * sa2_na / (n_a + T::one())
                     + sb2_nb * sb2_nb / (n_b + T::one())) - T::one() - T::one();
 
-        if !mean_difference.is_finite() || !std_err_mean.is_finite() || !effective_dof.is_finite() {
+        if !mean_difference.is_finite()
+            || !std_err_mean.is_finite()
+            || !effective_dof.is_finite()
+            || effective_dof <= T::zero()
+        {
             return Err(CIError::InvalidInputData);
         }
 
